@@ -38,6 +38,21 @@ def _used_as_array(project, funcq, name) -> bool:
     return False
 
 
+def _used_as_scalar(project, funcq, name) -> bool:
+    """the name is the operand of a comparison that is itself an `if` / `while` test (arrays cannot be truth-tested)"""
+    fi = project.functions.get(funcq)
+    if fi is None:
+        return False
+    for n in ast.walk(fi.node):
+        if isinstance(n, (ast.If, ast.While)):
+            t = n.test
+            while isinstance(t, ast.UnaryOp) and isinstance(t.op, ast.Not):
+                t = t.operand
+            if isinstance(t, ast.Compare) and any(isinstance(x, ast.Name) and x.id == name for x in [t.left] + t.comparators):
+                return True
+    return False
+
+
 def _chain_text(ev: Event) -> str:
     return " -> ".join(ev.chain) if ev.chain else ""
 
@@ -56,11 +71,14 @@ def check_pu_args(project: Project, oa, rep, entry_points, rule="PU-ARGS"):
             p = ev.origin.param
             if p == self_name:
                 continue
-            if ev.needs_nd and not ev.origin.path:
-                # `name op= value` on a parameter of unknown kind: in place only if it is an array
+            if ev.needs_nd and isinstance(getattr(ev.node, "target", None), ast.Name):
+                # `name op= value` on a value of unknown kind (a parameter, or an element obtained by iterating one):
+                # in place only if it is an array; for a scalar the statement merely rebinds the local name. Arrays are
+                # recognised by how the name is used (subscripted, .shape, ...); a name that is truth-tested through a
+                # bare comparison (`while n > 0`) is a scalar
                 owner = ev.func
-                tname = ev.node.target.id if isinstance(getattr(ev.node, "target", None), ast.Name) else p
-                if not _used_as_array(project, owner, tname):
+                tname = ev.node.target.id
+                if not _used_as_array(project, owner, tname) or _used_as_scalar(project, owner, tname):
                     continue
             bad.setdefault(p, []).append(ev)
         for p in params:
